@@ -273,7 +273,20 @@ func mutate(r *core.Rand, rule RuleSpec, m c16Method) RuleSpec {
 		rule.Invalid = "nested-variable"
 	case 10:
 		// ** anywhere but last (the grammar allows only a verb after it)
-		rule.Template += r.PickS("/**/tail", "/**/*", "/{a=**}/tail", "/{a=lit/**}/x")
+		// (the variable forms name a real string field of the request, so
+		// that nothing but the position of ** is wrong with the template)
+		strf := ""
+		for _, f := range bindable(methodDesc(m.Service, m.Name).Input(), "", 0) {
+			if f.Kind == protoreflect.StringKind && !strings.Contains(rule.Template, "{"+f.Path) {
+				strf = f.Path
+				break
+			}
+		}
+		forms := []string{"/**/tail", "/**/*"}
+		if strf != "" {
+			forms = append(forms, "/{"+strf+"=**}/tail", "/{"+strf+"=lit/**}/x", "/{"+strf+"=**}/*", "/{"+strf+"=**}/tail:v")
+		}
+		rule.Template += forms[r.Intn(len(forms))]
 		rule.Invalid = "starstar-not-last"
 	case 11:
 		rule.Verb = "custom-nil"
